@@ -379,7 +379,9 @@ def run_session(url, replies, max_redirects=20, use_jar=True, factory_pairs=(('U
                     while not sess.done():
                         nxt = sess.next_request()
                         if nxt.url_info.scheme not in ('http', 'https'):
-                            outcome = 'skipped'       # what the processor's scheme filter does
+                            # cannot happen since bc02e86 (_process_redirect raises ProtocolError for such a
+                            # target); if it does, the model (exc:ProtocolError) and the wire oracle disagree
+                            outcome = 'non-http-next-request'
                             break
                         n_iter += 1
                         if n_iter > 10000:
